@@ -121,7 +121,8 @@ def _closure(vfile, seen=None):
     seen.add(vfile)
     with open(vfile, encoding='utf-8') as f:
         text = f.read()
-    for m in re.finditer(r'From\s+HS\s+Require\s+(?:Import\s+|Export\s+)?((?:[A-Za-z_][\w.]*\s*)+)\.(?=\s)', text):
+    # (a lazy match up to the first full stop that is followed by white space: linear, unlike a nested repetition)
+    for m in re.finditer(r'From\s+HS\s+Require\s+(?:Import\s+|Export\s+)?(.*?)\.(?=\s)', text, re.S):
         for mod in m.group(1).split():
             _closure(os.path.join(THEORIES, mod.strip('.').replace('.', '/') + '.v'), seen)
     return seen
